@@ -357,3 +357,25 @@ pub unsafe extern "C" fn close(fd: c_int) -> c_int {
     });
     real!("close", unsafe extern "C" fn(c_int) -> c_int)(fd)
 }
+
+// ---------------------------------------------------------------------------------------------
+// virtual monotonic clock (for the rate limiter): when enabled, every
+// `clock_gettime(CLOCK_MONOTONIC)` — i.e. every `Instant::now()` — returns the virtual time and
+// then advances it by `TICK` ns.
+pub static VCLOCK_ON: std::sync::atomic::AtomicBool = std::sync::atomic::AtomicBool::new(false);
+pub static VCLOCK_NOW: std::sync::atomic::AtomicU64 = std::sync::atomic::AtomicU64::new(0);
+pub static VCLOCK_TICK: std::sync::atomic::AtomicU64 = std::sync::atomic::AtomicU64::new(0);
+pub static VCLOCK_READS: std::sync::atomic::AtomicU64 = std::sync::atomic::AtomicU64::new(0);
+
+#[no_mangle]
+pub unsafe extern "C" fn clock_gettime(clk: libc::clockid_t, ts: *mut libc::timespec) -> c_int {
+    if clk == libc::CLOCK_MONOTONIC && VCLOCK_ON.load(Ordering::SeqCst) && !ts.is_null() {
+        let tick = VCLOCK_TICK.load(Ordering::SeqCst);
+        let now = VCLOCK_NOW.fetch_add(tick, Ordering::SeqCst);
+        VCLOCK_READS.fetch_add(1, Ordering::SeqCst);
+        (*ts).tv_sec = (now / 1_000_000_000) as libc::time_t;
+        (*ts).tv_nsec = (now % 1_000_000_000) as libc::c_long;
+        return 0;
+    }
+    real!("clock_gettime", unsafe extern "C" fn(libc::clockid_t, *mut libc::timespec) -> c_int)(clk, ts)
+}
